@@ -936,10 +936,11 @@ def CheckBlock(block, fCheckPoW = True, fCheckMerkleRoot = True, cur_time=None):
             root = block.vWitnessMerkleTree[-1]
             # vtx[0]: coinbase
             # vtxinwit[0]: first input
-            nonce_script = block.vtx[0].wit.vtxinwit[0].scriptWitness
-            nonce = nonce_script.stack[0]
-            if len(nonce_script.stack) != 1 or len(nonce) != 32:
+            vtxinwit = block.vtx[0].wit.vtxinwit
+            nonce_stack = vtxinwit[0].scriptWitness.stack if len(vtxinwit) else ()
+            if len(nonce_stack) != 1 or len(nonce_stack[0]) != 32:
                 raise CheckBlockError("CheckBlock() : invalid coinbase witnessScript")
+            nonce = nonce_stack[0]
             try:
                 index = block.get_witness_commitment_index()
             except ValueError as e:
